@@ -36,7 +36,10 @@ __CPROVER_ensures(g_exc == 0 || g_exc == EXC_STD || g_exc == EXC_OTHER)
 __CPROVER_ensures(g_thrown == g_exc && g_process_calls == OLD(g_process_calls) + 1 && g_processed_tc == tc && g_processed_te == te && g_clock == OLD(g_clock) + 1 && g_t_process == g_clock)
 __CPROVER_ensures(*flush_flag == NULL || *flush_flag == g_flag_of_event);
 void ERROR_NOTIFIER(BW* self) __CPROVER_assigns(g_notify_calls, g_clock, g_t_notify) __CPROVER_ensures(g_notify_calls == OLD(g_notify_calls) + 1 && g_clock == OLD(g_clock) + 1 && g_t_notify == g_clock);
-void BW__cleanup_invalidated_thread_contexts(BW* self) __CPROVER_assigns(g_clock, g_t_cleanup) __CPROVER_ensures(g_clock == OLD(g_clock) + 1 && g_t_cleanup == g_clock);
+size_t g_failchecks, g_t_failcheck, g_cleanups;
+void BW__cleanup_invalidated_thread_contexts(BW* self) __CPROVER_assigns(g_clock, g_t_cleanup, g_cleanups) __CPROVER_ensures(g_clock == OLD(g_clock) + 1 && g_t_cleanup == g_clock && g_cleanups == OLD(g_cleanups) + 1);
+/* _check_failure_counter (unit BW.failure_counter): reports and resets the discard / blocking counters of every cached context */
+void BW__check_failure_counter(BW* self) __CPROVER_assigns(g_clock, g_t_failcheck, g_failchecks) __CPROVER_ensures(g_clock == OLD(g_clock) + 1 && g_t_failcheck == g_clock && g_failchecks == OLD(g_failchecks) + 1);
 void FLAG_store(FlushFlag* f, bool v)
 __CPROVER_requires(f != NULL)
 __CPROVER_assigns(g_stores, g_stored_flag, g_clock, g_t_store)
@@ -56,14 +59,14 @@ __CPROVER_ensures(g_stores == OLD(g_stores) + 1 && g_stored_flag == f && g_clock
 PL_CONTRACT = r'''
 __CPROVER_requires(__CPROVER_is_fresh(self, sizeof(*self)) && __CPROVER_is_fresh(T_(self), sizeof(TCx)) && __CPROVER_is_fresh(O_(self), sizeof(TCx)) && __CPROVER_is_fresh(T_(self)->_transit_event_buffer, sizeof(TEBs)) && __CPROVER_is_fresh(O_(self)->_transit_event_buffer, sizeof(TEBs)))
 __CPROVER_requires((T_(self)->_transit_event_buffer->front_ev.named_args == NULL || __CPROVER_is_fresh(T_(self)->_transit_event_buffer->front_ev.named_args, sizeof(NA))) && (O_(self)->_transit_event_buffer->front_ev.named_args == NULL || __CPROVER_is_fresh(O_(self)->_transit_event_buffer->front_ev.named_args, sizeof(NA))))
-__CPROVER_requires(self->_active_thread_contexts_cache.g_p < self->_active_thread_contexts_cache.n && g_exc == 0 && g_clock == 0 && g_process_calls == 0 && g_notify_calls == 0 && g_pops == 0 && g_stores == 0 && g_thrown == 0 && g_t_store == 0 && g_t_pop == 0 && g_t_process == 0 && g_t_cleanup == 0)
+__CPROVER_requires(self->_active_thread_contexts_cache.g_p < self->_active_thread_contexts_cache.n && g_exc == 0 && g_clock == 0 && g_process_calls == 0 && g_notify_calls == 0 && g_pops == 0 && g_stores == 0 && g_thrown == 0 && g_t_store == 0 && g_t_pop == 0 && g_t_process == 0 && g_t_cleanup == 0 && g_failchecks == 0 && g_cleanups == 0 && g_t_failcheck == 0)
 #ifdef TS_NOT_MAX
 __CPROVER_requires(FTS(T_(self)) != UINT64_MAX && FTS(O_(self)) != UINT64_MAX)
 #endif
 #ifdef TS_MAX
 __CPROVER_requires(FTS(T_(self)) == UINT64_MAX || FTS(O_(self)) == UINT64_MAX)
 #endif
-__CPROVER_assigns(g_exc, g_clock, g_t_process, g_t_pop, g_t_cleanup, g_t_store, g_t_notify, g_process_calls, g_notify_calls, g_pops, g_stores, g_processed_tc, g_processed_te, g_popped_tc, g_thrown, g_stored_flag)
+__CPROVER_assigns(g_failchecks, g_t_failcheck, g_cleanups, g_exc, g_clock, g_t_process, g_t_pop, g_t_cleanup, g_t_store, g_t_notify, g_process_calls, g_notify_calls, g_pops, g_stores, g_processed_tc, g_processed_te, g_popped_tc, g_thrown, g_stored_flag)
 __CPROVER_assigns(T_(self)->_transit_event_buffer->g_size, T_(self)->_transit_event_buffer->g_popped, T_(self)->_transit_event_buffer->front_ev, O_(self)->_transit_event_buffer->g_size, O_(self)->_transit_event_buffer->g_popped, O_(self)->_transit_event_buffer->front_ev)
 __CPROVER_assigns(T_(self)->_transit_event_buffer->front_ev.named_args != NULL: T_(self)->_transit_event_buffer->front_ev.named_args->g_cleared)
 __CPROVER_assigns(O_(self)->_transit_event_buffer->front_ev.named_args != NULL: O_(self)->_transit_event_buffer->front_ev.named_args->g_cleared)
@@ -78,6 +81,7 @@ __CPROVER_ensures((RET && WAS_NONEMPTY(T_(self))) ==> OLD_FTS_SEL(self) <= OLD(F
 __CPROVER_ensures(RET ==> g_t_process < g_t_pop) /*@ C03 "the event is removed only after it was dispatched" */
 __CPROVER_ensures(g_notify_calls == (g_thrown != 0 ? 1 : 0)) /*@ C10 "a failure while processing is reported through the error notifier exactly once" */
 __CPROVER_ensures(g_stores <= 1 && (g_stores == 1 ==> (g_stored_flag == g_flag_of_event && g_t_process < g_t_pop && g_t_pop < g_t_store))) /*@ C06 "the flush caller is released only after the flush event was processed (sinks flushed) and removed from the buffer" */
+__CPROVER_ensures(g_cleanups >= 1 ==> (g_failchecks >= 1 && g_t_failcheck < g_t_cleanup)) /*@ C08 "exited threads' contexts are reclaimed (here: after a flush event) only after their discard counts were reported: reported drops add up to the discarded statements" */
 '''
 
 PL_LOOP = {0: r'''
@@ -92,16 +96,16 @@ __CPROVER_decreases(self->_active_thread_contexts_cache.n - __i0)
 '''}
 
 process_lowest = dict(
-    name='BW.process_lowest', primary='C03', props={'C03', 'C05', 'C06', 'C10'}, kind='S',
+    name='BW.process_lowest', primary='C03', props={'C03', 'C05', 'C06', 'C10', 'C08'}, kind='S',
     desc='BackendWorker::_process_lowest_timestamp_transit_event: min-timestamp selection, exactly one pop after the dispatch on every path, exceptions contained, flush flag released last',
     structs=[], prelude=PL_PRELUDE, enforce='BW__process_lowest_timestamp_transit_event',
-    replace=['TEB_pop_front', 'NA_clear', 'BW_process_event', 'ERROR_NOTIFIER', 'BW__cleanup_invalidated_thread_contexts', 'FLAG_store'], loopcontracts=True,
+    replace=['TEB_pop_front', 'NA_clear', 'BW_process_event', 'ERROR_NOTIFIER', 'BW__cleanup_invalidated_thread_contexts', 'BW__check_failure_counter', 'FLAG_store'], loopcontracts=True,
     funcs=[dict(src=dict(header=H, cls='BackendWorker', name='_process_lowest_timestamp_transit_event'), src_params=[],
                 cfun='BW__process_lowest_timestamp_transit_event', sig='bool BW__process_lowest_timestamp_transit_event(BW* self)', ret_default='false',
                 cls_c='BW', member_fields=['_options', '_active_thread_contexts_cache'], siblings=['_process_transit_event', '_cleanup_invalidated_thread_contexts'],
                 methods={'front': 'TEB_front', 'pop_front': 'TEB_pop_front', 'clear': 'NA_clear', 'store': 'FLAG_store'},
                 range_for=[(r'_active_thread_contexts_cache', 'CVec_size', 'CVec_get', 'TCx*')],
-                pre_rules=[(r'_options\.error_notifier\s*\([^;]*\)\s*;', 'ERROR_NOTIFIER(self);'),
+                pre_rules=[(r'_check_failure_counter\(_options\.error_notifier\)\s*;', 'BW__check_failure_counter(self);', '?'), (r'_options\.error_notifier\s*\([^;]*\)\s*;', 'ERROR_NOTIFIER(self);'),
                            (r'std::atomic<bool>\s*\*', 'FlushFlag*', 1), (r'ThreadContext\s*\*', 'TCx*'), (r'TransitEvent\s*(const\s*)?\*', 'TE*')],
                 rules=[(r'if\s*\(\s*!thread_context\s*\)', 'ANCHOR_TC(self, thread_context); if (!thread_context)', 1)],
                 exceptions=True, may_throw=['BW__process_transit_event'],
